@@ -280,6 +280,10 @@ def rule_rebinds(ctx):
                 tg = [node.target]
             elif isinstance(node, ast.Delete):
                 tg = node.targets
+            elif isinstance(node, ast.Expr) and isinstance(node.value, ast.Call) and isinstance(node.value.func, ast.Attribute) and node.value.func.attr == "pop" \
+                    and norm_text(node.value.func.value) == f"{s}.__dict__" and node.value.args:
+                # self.__dict__.pop(key, ..) is `del self.__dict__[key]`
+                tg = [ast.Subscript(value=node.value.func.value, slice=node.value.args[0], ctx=ast.Del())]
             for t in tg:
                 for el in (t.elts if isinstance(t, (ast.Tuple, ast.List)) else [t]):
                     hit = None
@@ -301,11 +305,37 @@ def rule_rebinds(ctx):
 
 
 # ------------------------------------------------------------------ clones
-def _is_cache_drop_loop(st: ast.stmt, X: str) -> bool:
+def _mro_cached_names(e: ast.expr, X: str, Ts=None) -> bool:
+    """is e (temporaries already read through) the collection of ALL names that are a cached_property somewhere along type(X).__mro__ - possibly sorted / listed, possibly
+    filtered to those that still resolve to a cached_property on type(X) (a sound filter: an overridden name has no cached value to drop)?"""
+    Ts = Ts or {f"type({X})"}   # (X itself may have been read through to the expression it was bound to: type(copy.copy(self)))
+    if isinstance(e, ast.Call) and isinstance(e.func, ast.Name) and e.func.id in ("sorted", "list", "tuple", "set", "frozenset") and len(e.args) == 1 and not e.keywords:
+        return _mro_cached_names(e.args[0], X, Ts)
+    if isinstance(e, (ast.ListComp, ast.SetComp, ast.GeneratorExp)):
+        gens = e.generators
+        if len(gens) == 1 and isinstance(gens[0].target, ast.Name) and isinstance(e.elt, ast.Name) and e.elt.id == gens[0].target.id:
+            nm = gens[0].target.id
+            if all(any(norm_text(t).replace(" ", "") == f"isinstance(getattr({T},{nm},None),cached_property)".replace(" ", "") for T in Ts) for t in gens[0].ifs):
+                return _mro_cached_names(gens[0].iter, X, Ts)
+            return False
+        if len(gens) == 2 and isinstance(gens[0].target, ast.Name) and any(norm_text(gens[0].iter) == f"{T}.__mro__" for T in Ts) and not gens[0].ifs \
+                and isinstance(gens[1].target, ast.Tuple) and len(gens[1].target.elts) == 2 and all(isinstance(x, ast.Name) for x in gens[1].target.elts) \
+                and norm_text(gens[1].iter).replace(" ", "") in (f"vars({gens[0].target.id}).items()", f"{gens[0].target.id}.__dict__.items()"):
+            nm, val = gens[1].target.elts[0].id, gens[1].target.elts[1].id
+            return isinstance(e.elt, ast.Name) and e.elt.id == nm and [norm_text(t).replace(" ", "") for t in gens[1].ifs] == [f"isinstance({val},cached_property)"]
+    return False
+
+
+def _is_cache_drop_loop(st: ast.stmt, X: str, f=None) -> bool:
     if not isinstance(st, ast.For) or not isinstance(st.target, ast.Name):
         return False
     k = st.target.id
     it = norm_text(st.iter)
+    if f is not None and len(st.body) == 1 and isinstance(st.body[0], ast.Expr) and norm_text(st.body[0].value).replace(" ", "") == f"{X}.__dict__.pop({k},None)":
+        # the names collected up front over the whole MRO, each entry then popped
+        from .. import wire
+        Ts = {f"type({X})"} | {f"type({norm_text(n.value)})" for n in f.body_nodes() if isinstance(n, ast.Assign) and len(n.targets) == 1 and isinstance(n.targets[0], ast.Name) and n.targets[0].id == X}
+        return _mro_cached_names(wire.inline_locals(f, st.iter), X, Ts)
     if it not in (f"list({X}.__dict__)", f"tuple({X}.__dict__)", f"list({X}.__dict__.keys())", f"{X}.__dict__.copy()"):
         return False
     if len(st.body) != 1 or not isinstance(st.body[0], ast.If) or st.body[0].orelse:
@@ -317,13 +347,53 @@ def _is_cache_drop_loop(st: ast.stmt, X: str) -> bool:
     return len(body) == 1 and isinstance(body[0], ast.Delete) and norm_text(body[0].targets[0]) == f"{X}.__dict__[{k}]"
 
 
+def _explicit_drops(f, X: str) -> set:
+    """names of instance-dict entries of X that f removes one by one: `X.__dict__.pop("a", None)`, `del X.__dict__["a"]` (guarded or not), also written as a loop
+    over a literal tuple / list of names"""
+    out = set()
+
+    def body_drops(stmts, var=None):
+        hit = False
+        for st in stmts:
+            for n in ast.walk(st):
+                if isinstance(n, ast.Call) and norm_text(n.func) == f"{X}.__dict__.pop" and n.args:
+                    a = n.args[0]
+                    if var is not None and isinstance(a, ast.Name) and a.id == var:
+                        hit = True
+                    elif isinstance(a, ast.Constant) and isinstance(a.value, str):
+                        out.add(a.value)
+                if isinstance(n, ast.Delete):
+                    for t in n.targets:
+                        if isinstance(t, ast.Subscript) and norm_text(t.value) == f"{X}.__dict__":
+                            if var is not None and isinstance(t.slice, ast.Name) and t.slice.id == var:
+                                hit = True
+                            elif isinstance(t.slice, ast.Constant) and isinstance(t.slice.value, str):
+                                out.add(t.slice.value)
+        return hit
+    for n in f.body_nodes():
+        if isinstance(n, ast.For) and isinstance(n.target, ast.Name) and isinstance(n.iter, (ast.Tuple, ast.List)) and all(isinstance(e, ast.Constant) and isinstance(e.value, str) for e in n.iter.elts):
+            if body_drops(n.body, n.target.id):
+                out.update(e.value for e in n.iter.elts)
+    body_drops([n for n in f.node.body])
+    return out
+
+
+def _cached_property_names(cls) -> set:
+    names = set()
+    for c in (cls.mro() if cls is not None else []):
+        for m in c.methods.values():
+            if any(norm_text(d).split(".")[-1] == "cached_property" for d in m.node.decorator_list):
+                names.add(m.name)
+    return names
+
+
 def rule_clones(ctx):
     p = ctx.p
     n = 0
     # the helper itself
     try:
         h = p.func("autoarray.abstract_ndarray:AbstractNDArray._clear_cached_properties")
-        ok = any(_is_cache_drop_loop(st, h.params[0]) for st in h.node.body)
+        ok = any(_is_cache_drop_loop(st, h.params[0], h) for st in h.node.body)
         ctx.ob("C11.clone", "AbstractNDArray._clear_cached_properties", ok, where=h, node=h.node, construct="_clear_cached_properties body",
                message="the helper must delete every instance-dict entry whose class attribute is a cached_property")
     except AnchorMissing:
@@ -363,8 +433,13 @@ def rule_clones(ctx):
             for node in f.body_nodes():
                 if isinstance(node, ast.Expr) and isinstance(node.value, ast.Call) and norm_text(node.value.func) == f"{X}._clear_cached_properties" and h is not None:
                     dropped = True
-                if _is_cache_drop_loop(node, X):
+                if _is_cache_drop_loop(node, X, f):
                     dropped = True
+            if not dropped and f.cls is not None:
+                # or entry by entry, by name: complete when every cached property of the class (inherited ones included) is among the names
+                cp = _cached_property_names(f.cls)
+                named = _explicit_drops(f, X)
+                dropped = bool(cp) and cp <= named
             ctx.ob("C11.clone", f"{f.qualname}:{X}", dropped, where=f, node=changed[0][1], construct=f"{X} = clone of self; {X}.{changed[0][0]} replaced",
                    detail=f"contents replaced: {[a for a, _ in changed]}; cached values dropped",
                    message=f"`{X}` is a shallow clone of self (its instance dict, cached-property values included, is copied) whose `{changed[0][0]}` is then replaced, "
